@@ -89,6 +89,8 @@ type World struct {
 	LinksInProduct bool `json:"links_in_product,omitempty"`
 	// RunDirRel (entry "rundir"): the run directory is named relative to the working directory ("product")
 	RunDirRel bool `json:"run_dir_rel,omitempty"`
+	// BundleIntermediates: the caller hands over its intermediates as ONE PEM blob ("forward" | "reverse" order)
+	BundleIntermediates string `json:"bundle_intermediates,omitempty"`
 }
 
 // Built is a materialised world.
@@ -399,7 +401,23 @@ func (b *Built) IntermediatePEMs() [][]byte {
 			out = append(out, []byte(c.PEM))
 		}
 	}
-	return out
+	return BundlePEMs(out, b.W.BundleIntermediates)
+}
+
+// BundlePEMs joins the blobs into one chain file ("forward" | "reverse"); "" leaves them as they are.
+func BundlePEMs(pems [][]byte, mode string) [][]byte {
+	if mode == "" || len(pems) < 2 {
+		return pems
+	}
+	var blob []byte
+	for i := range pems {
+		p := pems[i]
+		if mode == "reverse" {
+			p = pems[len(pems)-1-i]
+		}
+		blob = append(blob, p...)
+	}
+	return [][]byte{blob}
 }
 
 // Outcome of one verification run.
